@@ -10,8 +10,8 @@ or in its reverse form ("<negation word> <row>").  Children of a row matched dir
 union of those rules' children plus the globals; children of a row covered only by a global rule (or only in reverse
 form) are governed by the globals alone.  A row covered only in reverse form by rules that are all cant_delete is refused.
 
-The reference refuses (Ambiguous) configurations whose outcome would depend on annet's shared-character specificity
-heuristic: a row matched both by a local and by a global rule, or both directly and in reverse form.
+Competing matches are ranked as the ACL language defines it (see ALevel.classify): %prio, then the shared-symbol
+specificity of the pattern, then direct-before-negated / local-before-global / text order.
 """
 import re
 
@@ -116,46 +116,35 @@ class ALevel:
         return cls([r for r in rules if not r.is_global], [r for r in rules if r.is_global])
 
     def classify(self, row):
-        """-> (kind, rules, child_level);  kind in {None, 'local', 'global', 'reverse'}"""
-        dl = [r for r in self.local if r.rx.match(row)]
-        dg = [r for r in self.globals if r.rx.match(row)]
-        rl = [r for r in self.local if r.rrx.match(row)]
-        rg = [r for r in self.globals if r.rrx.match(row)]
-        kinds = sum(1 for x in (dl, dg, rl or rg) if x)
-        if kinds == 0:
+        """-> (kind, rules, child_level);  kind in {None, 'local', 'global', 'reverse'}
+
+        Competing matches are ranked the way the ACL language defines it: higher %prio first, then the more SPECIFIC
+        pattern (share of the row's distinct symbols that occur in the pattern text), and among equals the order
+        direct-before-negated, local-before-%global, ACL text order.  The first match governs the row: its cant_delete
+        flags, whether the row is a removal request, and whether children rules apply at all (only below a direct local
+        match; then the children of ALL direct local matches are united)."""
+        cands = []
+        for (negated, key) in ((False, "rx"), (True, "rrx")):
+            for (is_global, rules) in ((False, self.local), (True, self.globals)):
+                for r in rules:
+                    pat = getattr(r, key)
+                    if pat.match(row):
+                        share = len(set(row) & set(pat.pattern)) / len(row)
+                        cands.append(((r.prio, share), negated, is_global, r))
+        if not cands:
             return None, [], None
-        if kinds > 1:
-            # %prio decides which match governs; only an undecided tie would fall to the specificity heuristic
-            allm = [(r.prio, "local", r) for r in dl] + [(r.prio, "global", r) for r in dg] + [(r.prio, "reverse", r) for r in rl + rg]
-            top = max(p for p, _k, _r in allm)
-            topkinds = set(k for p, k, _r in allm if p == top)
-            if len(topkinds) != 1:
-                if topkinds == {"local", "global"}:
-                    # covered either way; only the rules for its CHILDREN depend on the heuristic
-                    return "local|global", dl + dg, _Undecided("children of %r" % row)
-                revs = [r for p, kk, r in allm if kk == "reverse" and p == top]
-                if not any(all(r.cant_delete) for r in revs):
-                    # covered and deletable whichever match governs; children (if any) are undecided
-                    return "mixed", [r for p, _k, r in allm if p == top], _Undecided("children of %r" % row)
-                raise Ambiguous("row %r matched by %s" % (row, (dl, dg, rl, rg)))
-            k = topkinds.pop()
-            if k == "global":
-                dl, rl, rg = [], [], []
-            elif k == "local":
-                dg, rl, rg = [], [], []
-            else:
-                dl, dg = [], []
-                rl = [r for p, kk, r in allm if kk == "reverse" and p == top]
-                rg = []
-        if dl:
-            loc, glo = [], []
-            for r in dl:
-                for c in r.children:
-                    (glo if c.is_global else loc).append(c)
-            return "local", dl, ALevel(_uniq(loc), _uniq(glo + self.globals))
-        if dg:
-            return "global", dg, ALevel([], self.globals)
-        return "reverse", rl + rg, ALevel([], self.globals)
+        cands.sort(key=lambda c: c[0], reverse=True)   # stable: ties keep the collection order above
+        _, negated, is_global, first = cands[0]
+        if negated:
+            return "reverse", [first], ALevel([], self.globals)
+        if is_global:
+            return "global", [first], ALevel([], self.globals)
+        dl = [first] + [r for (_m, n, g, r) in cands[1:] if not n and not g]
+        loc, glo = [], []
+        for r in dl:
+            for c in r.children:
+                (glo if c.is_global else loc).append(c)
+        return "local", dl, ALevel(_uniq(loc), _uniq(glo + self.globals))
 
 
 class _Undecided:
